@@ -199,6 +199,8 @@ def sym_len(x):
 
 def sym_hex(x):
     if isinstance(x, SInt):
+        if getattr(Ctx.cur, 'render_map', None) is not None:
+            return core.render_number(x, 'x', alt=True)
         return '<symhex>'
     return builtins.hex(x)
 
@@ -307,9 +309,56 @@ def _in_set(t, ks):
     return cs[0] if len(cs) == 1 else z3.Or(*cs)
 
 
+_DIRECTIVE = None
+
+
+def _render_format(a, args):
+    """'%'-formatting with symbolic numbers in render mode (see core.render_number)"""
+    global _DIRECTIVE
+    import re
+    if _DIRECTIVE is None:
+        _DIRECTIVE = re.compile(r'%([-#0 +]*)(\d+)?(?:\.(\d+))?([sdxXiuorc%])')
+    out = []
+    pos = 0
+    k = 0
+    for m_ in _DIRECTIVE.finditer(a):
+        out.append(a[pos:m_.start()])
+        pos = m_.end()
+        flags, width, prec, conv = m_.group(1), m_.group(2), m_.group(3), m_.group(4)
+        if conv == '%':
+            out.append('%')
+            continue
+        x = args[k]
+        k += 1
+        if _has_sym(x):
+            m = _modint()
+            if m is not None and isinstance(x, m.moduint):
+                if conv in 'sr':
+                    txt = builtins.str(x) if conv == 's' else builtins.repr(x)
+                else:
+                    txt = core.render_number(x.arg, conv, alt='#' in flags, plus='+' in flags)
+            elif conv in 'sr':
+                txt = builtins.str(x)
+            elif conv == 'c':
+                raise core.PathAbort('%c of a symbolic value')
+            else:
+                txt = core.render_number(x, conv, alt='#' in flags, plus='+' in flags)
+            if width:
+                txt = ('%' + ('-' if '-' in flags else '') + width + 's') % txt
+            out.append(txt)
+        else:
+            out.append(('%' + flags + (width or '') + ('.' + prec if prec else '') + conv) % (x,))
+    out.append(a[pos:])
+    if k != len(args):
+        raise TypeError('not all arguments converted during string formatting')
+    return ''.join(out)
+
+
 def sym_mod(a, b):
     if isinstance(a, str):
         args = b if isinstance(b, tuple) else (b,)
+        if any(_has_sym(x) for x in args) and getattr(Ctx.cur, 'render_map', None) is not None:
+            return _render_format(a, args)
         if any(_has_sym(x) for x in args):
             Ctx.cur.stats['sym_format'] = Ctx.cur.stats.get('sym_format', 0) + 1
             if isinstance(b, tuple):
